@@ -223,6 +223,50 @@ def judge_stream(rq, o):
     return bad
 
 
+def judge_driver(rq, o):
+    if o is None or o.get("error") or o.get("served") != "nil" or not o.get("close_connection_seen"):
+        return [("harness-run", "no usable observation for driver scenario %s: %s" % (rq["id"], o))]
+    how = {"ccr-error": "a CloseConnectionResponse with an error status", "errmsg-error": "an ErrorMessage with an error status",
+           "errmsg-success": "an ErrorMessage with status Success", "wrong-type": "a reply of another type",
+           "ccr-garbage": "an undecodable CloseConnectionResponse", "accept": "a successful CloseConnectionResponse",
+           "silent": "no answer until the context ran out"}[rq["refuse"]]
+    op = {"stop": "LLRPDevice.Stop", "update_addr": "LLRPDevice.UpdateAddr (new address)", "reset": "LLRPDevice.resetConn"}[rq["op"]]
+    what = []
+    if o.get("op_result") == "stuck":
+        what.append("%s did not return" % op)
+    sends = o.get("sends_on_old_client") or {}
+    if set(sends) != {"closed"}:
+        what.append("sends on the old client afterwards: %s (each must fail at once with the client-closed error)" % sends)
+    if o.get("connect") != "closed":
+        what.append("the old client's Connect %s after the reader's next message" % (
+            "had not returned" if o.get("connect") == "blocked" else "returned class %s" % o.get("connect")))
+    bad = []
+    if what:
+        bad.append(("driver-leaves-client-open:%s" % rq["refuse"], "%s with a reader answering CloseConnection by %s (call returned %s after %s ms): %s" % (
+            op, how, o.get("op_result"), o.get("op_ms"), "; ".join(what))))
+    if o.get("panics"):
+        bad.append(("panic", "panic: %s" % o["panics"][:2]))
+    return bad
+
+
+def judge_late(rq, o):
+    if o is None or o.get("error"):
+        return [("harness-run", "no usable observation for %s: %s" % (rq["id"], o))]
+    bad = []
+    for api, counts in sorted((o.get("results") or {}).items()):
+        wrong = {k: v for k, v in counts.items() if k != "closed"}
+        if wrong:
+            bad.append(("send-after-close:%s:%s" % (api, sorted(wrong)[0]),
+                        "%s on a client closed by %s (ready gate open): %s over %d tries — every call must return the client-closed error at once%s" % (
+                            api, rq["how"], counts, sum(counts.values()),
+                            "; a call still had not returned after %d ms" % rq["per_call_ms"] if "stuck" in wrong else "")))
+    if o.get("connect") == "stuck":
+        bad.append(("stuck:Connect:late-send:%s" % rq["how"], "Connect had not returned after %s" % rq["how"]))
+    if o.get("panics"):
+        bad.append(("panic", "panic: %s" % o["panics"][:2]))
+    return bad
+
+
 def judge_flood(rq, o):
     if o is None or o.get("error"):
         return [("harness-run", "no usable observation for flood scenario %s: %s" % (rq["id"], o))]
@@ -405,6 +449,75 @@ def gen_scripts(thorough):
                     b.op("close")
                 b.op("peer_close")
                 finish(b, started, "flood-" + cause, "req1", k=k, behind=behind)
+    # every public send API in every blocking position x every termination cause: a call waiting at the ready gate (negotiation
+    # unanswered), queued behind a write loop that is stuck in a Write (stalled peer) or parked after CloseConnection, or awaiting its
+    # reply, must be released by a local Close at once, and by the end of the connection
+    for api in ("SendMessage", "SendFor", "SendNoWait"):
+        for pos in ("gate", "queued-stalled", "queued-parked", "awaiting"):
+            if pos == "awaiting" and api == "SendNoWait":
+                continue                                  # SendNoWait returns when the write loop has taken the message
+            for cause in ("close", "eof", "shutdown-completes"):
+                if cause == "shutdown-completes" and pos != "queued-parked":
+                    continue
+                version = 2 if pos == "gate" else 1
+                b = cc.SB("c09-api-%s-%s-%s" % (api, pos, cause), version=version)
+                b.connect(negotiate=False)
+                started = []
+                if pos == "gate":
+                    b.expect()                            # GetSupportedVersion, never answered
+                elif pos == "queued-stalled":
+                    b.send(7, 24, 9, 451, expect=False)   # its frame sits in a Write the peer does not read
+                    started.append(7)
+                elif pos == "queued-parked":
+                    b.steps.append(dict(op="shutdown", caller=8))
+                    b.expect()                            # CloseConnection read; the write loop parks
+                    started.append(8)
+                b.send(1, 25, 5, 452, expect=(pos == "awaiting"), api=None if api == "SendMessage" else api)
+                started.append(1)
+                b.wait(1)                                 # blocked
+                if cause == "close":
+                    b.op("close")
+                    for c in started:
+                        b.wait(c)                         # released by Close itself
+                elif cause == "shutdown-completes":
+                    b.reply(b.nseen - 1, 4, pl=dict(k="status", code=0))
+                    for c in started:
+                        b.wait(c)
+                b.op("peer_close")
+                finish(b, started, "api-" + cause, "req1", api=api, pos=pos)
+    # a late reply for a cancelled caller (nobody awaits it, no handler: the discard path) and unsolicited messages of an unhandled
+    # type, delivered in two or three pieces split in the header, at the header boundary and inside the payload, while another request
+    # is in flight: the stream must stay frame-aligned and the other request must get exactly its reply
+    sizes = (0, 1, 2, 511, 512, 513, 1024, 4200) if not thorough else (0, 1, 2, 3, 100, 511, 512, 513, 1023, 1024, 1025, 4096, 4200, 70000)
+    for what in ("late-reply", "unsolicited"):
+        for n in sizes:
+            full = 10 + n
+            cand = sorted({3, 9, 10, 11, 10 + n // 2, 10 + 511, 10 + 512, 10 + 513, full - 1})
+            offs = [o for o in cand if 0 < o < full]
+            splits = [(o,) for o in (range(1, full) if (thorough and n <= 100) else offs)]
+            if len(offs) >= 2:
+                splits += [(offs[i], offs[j]) for i in range(len(offs)) for j in range(i + 1, len(offs))][:: (1 if thorough else 3)]
+            for sp in splits:
+                b = cc.SB("c09-pieces-%s-n%d-at%s" % (what, n, "+".join(map(str, sp))), version=1)
+                b.connect()
+                b.send(1, 20, 8, 461).send(2, 21, 9, 462)
+                b.cancel(1)
+                fr = (dict(op="peer_send", typ=30, id=0, ver=1, pl=dict(k="tag", len=n, tag=463 if n else 0)) if what == "late-reply" else
+                      dict(op="peer_send", typ=61, id=9000, ver=1, pl=dict(k="tag", len=n, tag=463 if n else 0)))
+                prev = None
+                for o in sp:
+                    st = dict(fr, cut=o)
+                    if prev is not None:
+                        st["skip"] = prev
+                    b.steps.append(st)
+                    prev = o
+                b.steps.append(dict(fr, skip=prev))
+                b.wait(2)                                  # still waiting
+                b.reply_to(2, 31, 7, 464)
+                b.wait(2)
+                b.op("state")
+                b.op("peer_close")
+                finish(b, [1, 2], "pieces", "req1", other=2, nocompare=(len(sp) > 1), n=n, split=list(sp))
     # a reply split across a cancellation / Close: the peer sends the reply's first `cut` bytes (nothing but part of the header;
     # exactly the header; header + part of the payload; all but the last byte), the waiting caller is cancelled (or the client is
     # closed), the peer sends the rest. The stream must stay usable: another caller (already in flight, or started afterwards) gets
@@ -482,6 +595,37 @@ def pred_script(s, g):
         if st_obs and st_obs[0].get("awaiting") not in (0, None):
             extra.append(("cancel-leaves-await-entry", "awaiting map has %s entries after both requests ended (script %s)" % (st_obs[0].get("awaiting"), s["id"])))
     fam = s.get("family") or ""
+    if fam.startswith("api-"):
+        what, fault = [], False
+        for i, (st, o) in enumerate(zip(steps, obs)):
+            if st["op"] in ("close", "peer_close") or (st["op"] == "reply" and fam == "api-shutdown-completes"):
+                if st["op"] == "close" and fault and not [x for x in steps[:i] if x["op"] == "peer_close"] and fam != "api-close":
+                    pass
+                fault = True
+                continue
+            if fault and st["op"] == "wait_caller" and o.get("res") == "blocked" and st["caller"] != 9:
+                who = "the %s call %s" % (s["api"], s["pos"]) if st["caller"] == 1 else "caller %d" % st["caller"]
+                what.append("step %d: %s is still blocked after %s" % (i, who, "Close" if fam == "api-close" else "the connection ended"))
+        what += ["%s still blocked after the connection ended" % b[0] for b in bad if b[0] == "Connect"]
+        if what:
+            return extra + [("blocked-send-not-released:%s:%s" % (s["api"], s["pos"]), "%s (script %s)" % ("; ".join(dict.fromkeys(what)), s["id"]))]
+        return extra
+    if fam == "pieces":
+        what = []
+        for i, (st, o) in enumerate(zip(steps, obs)):
+            if st["op"] in ("peer_send", "reply") and o.get("st") != "ok":
+                what.append("step %d: the client did not take the peer's bytes (typ %s%s): %s" % (
+                    i, st.get("typ"), ", piece from byte %s" % st["skip"] if st.get("skip") is not None else "", o.get("st")))
+                break
+        w = [o.get("res") for st, o in zip(steps, obs) if st["op"] == "wait_caller" and st["caller"] == 2]
+        if w[:2] != ["blocked", "ok"]:
+            what.append("caller 2 (in flight while the unwanted message arrived in pieces) observed %s, expected ['blocked', 'ok']" % w[:2])
+        what += [t for _, t in cc.pred_c03(view)]
+        what += ["%s still blocked after the connection ended" % b[0] for b in bad]
+        if what:
+            return extra + [("unwanted-message-in-pieces-disturbs-stream", "%s (script %s: %d-byte payload delivered in pieces split at %s)" % (
+                "; ".join(what), s["id"], s.get("n"), s.get("split")))]
+        return extra
     if fam.startswith("flood-"):
         what = []
         for i, (st, o) in enumerate(zip(steps, obs)):
@@ -572,6 +716,15 @@ def run(tier, seed, replay=None):
             o = run_stream(exe, [rp["request"]])[0]
             for sig, text in judge_stream(rp["request"], o):
                 report(sig, text, dict(kind="stream", request=rp["request"], observed=o))
+        elif rp.get("kind") == "driver":
+            okd, dlog, dexe = vlib.build_harness("driver", PID, ["c09_test.go"])
+            o = run_stream(dexe, [rp["request"]], test="TestVerifC09Driver")[0]
+            for sig, text in judge_driver(rp["request"], o):
+                report(sig, text, dict(kind="driver", request=rp["request"], observed=o))
+        elif rp.get("kind") == "late":
+            o = run_stream(exe, [rp["request"]], test="TestVerifC09LateSend")[0]
+            for sig, text in judge_late(rp["request"], o):
+                report(sig, text, dict(kind="late", request=rp["request"], observed=o))
         elif rp.get("kind") == "flood":
             o = run_stream(exe, [rp["request"]], test="TestVerifC09Flood")[0]
             for sig, text in judge_flood(rp["request"], o):
@@ -641,22 +794,56 @@ def run(tier, seed, replay=None):
         for sig, text in judge_flood(rq, o):
             report(sig, text + " [%s]" % rq["id"], dict(kind="flood", request=rq, observed=o, theorem="C09_flood_keeps_reading"))
 
+    # ---- tie 1e: sends after close, many times, every exported API (a select between ready channels picks at random)
+    late_reqs = [dict(id="late-send-after-%s" % how, tries=200 if thorough else 60, per_call_ms=500, how=how) for how in ("close", "shutdown", "eof")]
+    late_obs = run_stream(exe, late_reqs, shards=3, test="TestVerifC09LateSend")
+    for rq, o in zip(late_reqs, late_obs):
+        evals += 1
+        dist["late-send/" + rq["how"]] = dist.get("late-send/" + rq["how"], 0) + 1
+        nontriv.add((rq["id"],))
+        for sig, text in judge_late(rq, o):
+            report(sig, text + " [%s]" % rq["id"], dict(kind="late", request=rq, observed=o, theorem="C09_submit_after_close_fails"))
+
+    # ---- tie 1f: the driver layer — Stop / UpdateAddr / resetConn with a reader that refuses CloseConnection in each way:
+    #      afterwards the OLD client must be closed (Close as the fallback of a failed Shutdown)
+    okd, dlog, dexe = vlib.build_harness("driver", PID, ["c09_test.go"])
+    if not okd:
+        report("build", "driver harness does not build: %s" % dlog[-1500:], dict(kind="build"))
+    else:
+        drv_reqs = [dict(id="driver-%s-%s" % (op, rf), op=op, refuse=rf, ctx_ms=300, budget_ms=1000)
+                    for op in ("stop", "update_addr", "reset")
+                    for rf in ("ccr-error", "errmsg-error", "errmsg-success", "wrong-type", "ccr-garbage", "accept", "silent")
+                    if not (op == "reset" and rf == "silent")]      # resetConn's own context is 20 s
+        drv_obs = run_stream(dexe, drv_reqs, shards=4, test="TestVerifC09Driver")
+        for rq, o in zip(drv_reqs, drv_obs):
+            evals += 1
+            dist["driver/" + rq["op"]] = dist.get("driver/" + rq["op"], 0) + 1
+            nontriv.add((rq["id"],))
+            for sig, text in judge_driver(rq, o):
+                report(sig, text + " [%s]" % rq["id"], dict(kind="driver", request=rq, observed=o))
+
     # ---- tie 2: frame-level scripts against the model (with / without the fixed Connect)
     scripts = gen_scripts(thorough)
     go, logs = cc.run_go(exe, scripts, shards=8)
     best = None
+    cmp_idx = [i for i, sc in enumerate(scripts) if not sc.get("nocompare")]
     for watch in (False, True):
-        variant, diffs, counts, _ = cx.pick_variant(scripts, go, watch=watch)
-        if diffs is None:
+        variant, diffs_c, counts, _ = cx.pick_variant([scripts[i] for i in cmp_idx], [go[i] for i in cmp_idx], watch=watch)
+        if diffs_c is None:
             res.violation("oracle-run", "oracle: %s" % counts, dict(kind="oracle"), False)
             return res.finish()
-        n = sum(1 for d in diffs if d)
+        n = sum(1 for d in diffs_c if d)
         if best is None or n < best[0]:
+            diffs = [[] for _ in scripts]
+            for i, d in zip(cmp_idx, diffs_c):
+                diffs[i] = d
             best = (n, watch, variant, diffs, counts)
     n, watch, variant, diffs, counts = best
     res.notes.append("model variant matching the code: connect_watches_errs_while_negotiating=%s filter_unsolicited=%s stamp_always=%s (%d of %d "
                      "scripts disagree)" % (watch, variant[0], variant[1], n, len(scripts)))
     for s, g, d in zip(scripts, go, diffs):
+        if s.get("nocompare"):
+            d = []
         evals += 1
         fam = "script/" + s.get("family", "?")
         dist[fam] = dist.get(fam, 0) + 1
@@ -679,7 +866,7 @@ def run(tier, seed, replay=None):
         rule="a case is one run of the reference session on the real Client with one fault point (frame, byte offset, direction) and one "
              "variant (plain / cancel / local Close / second Shutdown), or one frame-level script also run on the model; every case is "
              "non-trivial (a live session with callers in flight); distinct by (version, action, offset, variant) / script id",
-        samples=samples, input_distribution=dist, traces_validated_against_impl=len(scripts),
+        samples=samples, input_distribution=dist, traces_validated_against_impl=len(cmp_idx), predicate_only_scripts=len(scripts) - len(cmp_idx),
         fault_points=len({(r["version"], r["action"], r["off"]) for r in reqs}),
         close_race_rounds=race_rounds, streaming_peer_runs=len(stream_reqs), flood_runs=len(flood_reqs),
         stuck_fault_points={k: dict(count=len(v), first=v[:3]) for k, v in stuck_points.items()},
